@@ -234,6 +234,8 @@ def save_cases(rng, seed, n_cases, start):
             "kind": "save", "gen": [seed, start + i], "n_rows": n_rows, "n_dim": n_dim,
             "flavour": str(rng.choice(FLAVOURS)), "semantics": gen_semantics(rng, n_dim),
             "path": gen_path(rng), "contour": "stub",
+            "call": ["positional", "omit", "keyword"][i % 3], "overwrite": i % 7 == 3,
+            "path_type": "pathlib" if i % 11 == 5 else "str",
         }
 
 
@@ -242,6 +244,8 @@ def path_cases(rng, seed, n_cases, start):
         yield {
             "kind": "save", "gen": [seed, start + i], "n_rows": 1, "n_dim": 2, "flavour": "decades",
             "semantics": None, "path": gen_path(rng), "contour": "stub", "focus": "path",
+            "call": ["positional", "omit", "keyword"][i % 3], "overwrite": i % 5 == 2,
+            "path_type": "pathlib" if i % 4 == 1 else "str",
         }
 
 
@@ -279,6 +283,9 @@ def real_contours():
         ]
         m3 = vc.GlobalHierarchicalModel(dd)
         out["IFORM3D"] = (vc.IFORMContour(m3, 0.01, n_points=12), None)
+        sem3 = {"names": ["Wave height", "Wave period", "Wind speed"], "symbols": ["H_s", "T_z", "V"], "units": ["m", "s", "m/s"]}
+        out["ISORM3D"] = (vc.ISORMContour(m3, 0.01, n_points=10), sem3)
+        out["HDC3D"] = (vc.HighestDensityContour(m3, 0.05, limits=[(0, 12), (0, 12), (0, 30)], deltas=[0.5, 0.5, 1.0]), sem3)
     _REAL = out
     return out
 
@@ -291,40 +298,66 @@ class Stub:
 
 
 def real_save_cases():
-    for name in ["IFORM", "ISORM", "HDC", "DirectSampling", "And", "Or", "IFORM3D"]:
+    k = 0
+    for name in ["IFORM", "ISORM", "HDC", "DirectSampling", "And", "Or", "IFORM3D", "ISORM3D", "HDC3D"]:
         for with_sem in (False, True):
+            k += 1
             yield {"kind": "save", "contour": name, "with_sem": with_sem,
-                   "path": "out/" + name + ("" if with_sem else ".txt"), "gen": "real"}
+                   "path": "out/" + name + ("" if with_sem else ".txt"), "gen": "real",
+                   "call": ["positional", "omit", "keyword"][k % 3], "overwrite": k % 4 == 0,
+                   "path_type": "pathlib" if (k % 5 == 0 and not with_sem) else "str"}
 
 
 # ---------------------------------------------------------------------------
 # save_contour_coordinates: implementation run, oracle, model
 
 
-def run_save_impl(contour, semantics, relpath):
+JUNK = "stale; content of an earlier file\n" * 40
+
+
+def run_save_impl(contour, semantics, relpath, call="positional", overwrite=False, path_type="str"):
+    """call: 'positional' (contour, path, semantics) / 'omit' (no semantics argument when it is None) / 'keyword';
+    overwrite: a longer file with other content already exists at the target; path_type 'pathlib': a pathlib.Path is
+    passed (only when str(Path(p)) == p, i.e. pathlib does not normalise the path)"""
+    import pathlib
+
     from virocon import save_contour_coordinates
 
     tmp = tempfile.mkdtemp(prefix="c20-", dir=TMP_ROOT)
     try:
         full = tmp + "/" + relpath
         os.makedirs(os.path.dirname(full) or tmp, exist_ok=True)
-        before = set()
+        target = full if has_extension(full) else full + ".txt"
+        if overwrite and not os.path.isdir(target):
+            with open(target, "w", encoding="utf-8") as f:
+                f.write(JUNK)
+        before = {}
         for root, _, files in os.walk(tmp):
             for f in files:
-                before.add(os.path.join(root, f))
+                before[os.path.join(root, f)] = open(os.path.join(root, f), "rb").read()
+        arg = full
+        used_pathlib = False
+        if path_type == "pathlib" and str(pathlib.Path(full)) == full:
+            arg = pathlib.Path(full)
+            used_pathlib = True
         try:
             with warnings.catch_warnings():
                 warnings.simplefilter("ignore")
-                save_contour_coordinates(contour, full, semantics)
+                if call == "omit" and semantics is None:
+                    save_contour_coordinates(contour, arg)
+                elif call == "keyword":
+                    save_contour_coordinates(contour=contour, file_path=arg, semantics=semantics)
+                else:
+                    save_contour_coordinates(contour, arg, semantics)
         except Exception as e:  # noqa: BLE001
-            return {"err": type(e).__name__, "msg": str(e)[:200], "full": full}
+            return {"err": type(e).__name__, "msg": str(e)[:200], "full": full, "pathlib": used_pathlib}
         new = []
         for root, _, files in os.walk(tmp):
             for f in files:
                 p = os.path.join(root, f)
-                if p not in before:
+                if p not in before or open(p, "rb").read() != before[p]:
                     new.append(p)
-        out = {"full": full, "files": sorted(new)}
+        out = {"full": full, "files": sorted(new), "pathlib": used_pathlib}
         if len(new) == 1:
             raw = open(new[0], "rb").read()
             out["text"] = raw.decode(locale.getpreferredencoding(False))
@@ -338,6 +371,12 @@ def run_save_impl(contour, semantics, relpath):
         return out
     finally:
         shutil.rmtree(tmp, ignore_errors=True)
+
+
+def pathlib_no_ext_refused(impl):
+    """a pathlib.Path WITHOUT extension: the documented type of file_path is str, `file_path += ".txt"` raises TypeError
+    for a Path. Outside the documented input domain: accepted and counted, not asserted."""
+    return impl.get("pathlib") and impl.get("err") == "TypeError" and not has_extension(impl["full"])
 
 
 def expected_header(semantics, n_dim):
@@ -355,6 +394,8 @@ def oracle_save(coords, semantics, impl):
     hdr = expected_header(semantics, n_dim)
     if "err" in impl:
         if hdr is None and impl["err"] == "IndexError":
+            return bad
+        if pathlib_no_ext_refused(impl):
             return bad
         bad.append(("save_raises", f"{impl['err']}: {impl.get('msg')}"))
         return bad
@@ -445,7 +486,8 @@ def process_save(ck, cases):
         else:
             coords, semantics, relpath = materialize_save(case)
             contour = Stub(coords)
-        impl = run_save_impl(contour, semantics, relpath)
+        impl = run_save_impl(contour, semantics, relpath, case.get("call", "positional"), bool(case.get("overwrite")),
+                             case.get("path_type", "str"))
         ml = save_model_lines(coords, semantics, impl["full"])
         extra = 0
         if "text" in impl and "loadtxt" in impl and "\n" not in (expected_header(semantics, coords.shape[1]) or "\n"):
@@ -464,6 +506,13 @@ def process_save(ck, cases):
         ck.count("save:path_has_ext=%s" % has_extension(impl["full"]))
         if case.get("flavour"):
             ck.count("save:values=" + case["flavour"])
+        ck.count("save:call=" + (case.get("call", "positional") if not (case.get("call") == "omit" and semantics is not None)
+                                 else "positional"))
+        if case.get("overwrite"):
+            ck.count("save:target_exists_before(overwritten)")
+        if impl.get("pathlib"):
+            ck.count("save:path=pathlib.Path," + ("ext" if has_extension(impl["full"]) else
+                                                  ("no_ext:TypeError(str documented)" if pathlib_no_ext_refused(impl) else "no_ext:accepted")))
         bad = oracle_save(coords, semantics, impl)
         for pred, detail in bad:
             ck.fail({"entry": "save_contour_coordinates", "predicate": pred}, case, detail)
@@ -472,7 +521,9 @@ def process_save(ck, cases):
             ck.count("save:header_with_newline(not one line)")
         div = None
         m_txt, m_path = ans[p], ans[p + 1]
-        if m_txt.startswith("ERR"):
+        if pathlib_no_ext_refused(impl):
+            pass
+        elif m_txt.startswith("ERR"):
             if "err" not in impl or impl["err"] != "IndexError":
                 div = f"model {m_txt} impl {impl.get('err', 'wrote file')}"
             else:
